@@ -13,7 +13,7 @@ TECHNIQUE = "exhaustive enumeration of per-unit version histories (every step se
 RULE = (
     "every version history = first version in {(0,0,0),(5,3,1)} followed by up to L-1 steps over the alphabet "
     "{repeat, +3 dem, +3 gop +1 other, +10/+3, +3/+10 +2 other, -2 dem (downward revision), +3 dem -2 gop (impossible batch, turnout still grows), "
-    "+3 other only, +10/+10, +10 dem -1 gop (batch margin 11/9, just above 1), +3 dem -3 gop (votes moved between candidates at unchanged totals: batch margin 6/0)} x latest recorded percent in {40, 93.5, 100} x earlier recorded percents {consistent, garbage} x count dtype {float, int}, "
+    "+3 other only, +10/+10, +10 dem -1 gop (batch margin 11/9, just above 1), +3 dem -3 gop (votes moved between candidates at unchanged totals: batch margin 6/0), -3 dem and -3 other (exact inverses of +3 steps, so a revision can be restored to an identical earlier version)} x latest recorded percent in {40, 93.5, 100} x earlier recorded percents {consistent, garbage} x count dtype {float, int}, "
     "one and two units per frame. Oracle: regular history => rows exactly for p = 0..floor(latest), est(p)*p = m_v*perc_v + b_v*(p - perc_v) with v the "
     "last observation at or below p (hence a convex combination within [-1,1]), est = first margin before the first observation (p = 0 exempt), "
     "correction = final margin - est; irregular history => all corrections missing and the error type recorded. non-trivial = the history has at least "
@@ -23,7 +23,7 @@ ASSUMPTIONS = [
     "float knife edges: an observation whose exact percent is within 1e-9 of a whole percent p may be read as 'at p' or 'just above p'; both readings are accepted",
     "p = 0 is exempt (the code defines est(0) = 0)",
 ]
-STEPS = [(0, 0, 0), (3, 0, 0), (0, 3, 1), (10, 3, 0), (3, 10, 2), (-2, 0, 0), (3, -2, 0), (0, 0, 3), (10, 10, 0), (10, -1, 0), (3, -3, 0)]
+STEPS = [(0, 0, 0), (3, 0, 0), (0, 3, 1), (10, 3, 0), (3, 10, 2), (-2, 0, 0), (3, -2, 0), (0, 0, 3), (10, 10, 0), (10, -1, 0), (3, -3, 0), (-3, 0, 0), (0, 0, -3)]
 FIRST = [(0, 0, 0), (5, 3, 1)]
 LATEST = [40.0, 93.5, 100.0]
 SELFCHECK_INDEX = 2
